@@ -155,7 +155,8 @@ OkSound == (cur.k # "init" /\ Mode = "reply" /\ cur.res.k = "ok") =>
              /\ d.exact /\ Len(d.an) = d.cnt[2]
              /\ \A i \in 1..Len(cur.res.addrs) : \E j \in 1..Len(d.an) : d.an[j].rd = cur.res.addrs[i] /\ d.an[j].ttl >= cur.res.maxttl
 (* re-encoding what was decoded (without compression) decodes to the same records: decode o encode = id *)
-ReEncode == (cur.k # "init" /\ Decode(cur.b).ok /\ Decode(cur.b).strict) =>
+AllRdOk(d) == \A rs \in {d.an, d.ns, d.ar} : \A i \in 1..Len(rs) : rs[i].rdok
+ReEncode == (cur.k # "init" /\ Decode(cur.b).ok /\ Decode(cur.b).strict /\ AllRdOk(Decode(cur.b))) =>
    LET d == Decode(cur.b)
        plain(rs) == [i \in 1..Len(rs) |->
                        IF rs[i].t \in NameTypes /\ rs[i].rdok THEN RRname(Labels(rs[i].n), rs[i].t, rs[i].c, Max(rs[i].ttl, 0), Labels(rs[i].rdn))
